@@ -64,7 +64,7 @@ Print Assumptions C05_empty_identities.
 
 (* non-vacuity: parsed operands meet the hypotheses, and the theorem's conclusion is what runs *)
 Example C05_example :
-  exists a b c, parse_single false ">=1.0,<2.0"%string = Err EParseConstraint /\
+  exists a b c, parse_single false ">=1.0,<2.0"%string = Err ENoPattern /\
     parse_single false ">=1.0"%string = Ok (VOne a) /\ parse_single false "<2.0"%string = Ok (VOne b) /\
     wf_rng a = true /\ wf_rng b = true /\ proper a = true /\ proper b = true /\
     intersect (VOne a) (VOne b) = Ok c /\ vc_str c = Ok ">=1.0,<2.0"%string.
